@@ -292,9 +292,36 @@ KINDS = ('tcp', 'rtu-over-tcp', 'serial-rtu', 'serial-ascii', 'serial-binary', '
 FRAMING = {'tcp': 'tcp', 'rtu-over-tcp': 'rtu', 'serial-rtu': 'rtu', 'serial-ascii': 'ascii', 'serial-binary': 'binary', 'udp': 'tcp'}
 
 
-def make_client(kind, line, **kw):
-    """real client object with its transport preset to a fake on `line`"""
+_NEIGHBOUR_CLASSES = []
+
+
+def _neighbour_classes():
+    """custom response classes another application component might register on ITS client: same function codes as the
+    standard ones, but decoding to nothing"""
+    if not _NEIGHBOUR_CLASSES:
+        from pymodbus.factory import ClientDecoder
+        for cls in getattr(ClientDecoder, '_ClientDecoder__function_table'):
+            ns = dict(decode=lambda self, data: setattr(self, 'neighbour_decoded', True),
+                      __doc__='neighbour variant')
+            _NEIGHBOUR_CLASSES.append(type('Neighbour' + cls.__name__, (cls,), ns))
+    return _NEIGHBOUR_CLASSES
+
+
+def make_client(kind, line, neighbour=True, **kw):
+    """real client object with its transport preset to a fake on `line`.  Unless neighbour=False a second client of the
+    same kind exists in the process (created first, never connected) with its own transaction counter and its own
+    registered response classes: what one client object is configured to do is no business of another."""
     kw.setdefault('timeout', 3)
+    if neighbour:
+        nb = make_client(kind, Line(line.clock, lambda l, d: None), neighbour=False, **kw)
+        for cls in _neighbour_classes():
+            nb.register(cls)
+        nb.transaction.tid = 0x4242
+        c = make_client(kind, line, neighbour=False, **kw)
+        for cls in _neighbour_classes():
+            nb.register(cls)
+        c._neighbour = nb
+        return c
     if kind == 'tcp':
         c = csync.ModbusTcpClient('peer', **kw)
         c.socket = FakeSocket(line)
